@@ -182,7 +182,14 @@ func (a *API) Sub(ctx context.Context, tok int) (<-chan int, error) {
 	st.mu.Unlock()
 	ch := make(chan int)
 	n := t.N
+	pctx := ctx
+	if t.IgnoreCtx {
+		// a handler is free to ignore the cancellation of its context and keep
+		// sending; it only stops when the harness tears the world down
+		pctx = doneCtx{a.e.Done}
+	}
 	a.e.S.Go("prod-"+strconv.Itoa(tok), func() {
+		ctx := pctx
 		gap := time.Duration(t.GapNs)
 		for k := 0; k < n; k++ {
 			if gap > 0 {
@@ -386,6 +393,48 @@ func (a *API) SubT(ctx context.Context, tok int) (<-chan SubElem, error) {
 	return out, nil
 }
 
+// doneCtx is a context that is done only when the harness is torn down.
+type doneCtx struct{ done chan struct{} }
+
+func (d doneCtx) Deadline() (time.Time, bool) { return time.Time{}, false }
+func (d doneCtx) Done() <-chan struct{}       { return d.done }
+func (d doneCtx) Err() error {
+	select {
+	case <-d.done:
+		return context.Canceled
+	default:
+		return nil
+	}
+}
+func (d doneCtx) Value(interface{}) interface{} { return nil }
+
+// SlowVal is a result whose JSON encoding takes fake time (a very large or
+// expensive-to-encode result).
+type SlowVal struct {
+	Tok   int
+	Sleep time.Duration
+}
+
+func (v SlowVal) MarshalJSON() ([]byte, error) {
+	if v.Sleep > 0 {
+		time.Sleep(v.Sleep)
+	}
+	return []byte(strconv.Quote(Result(v.Tok, 0))), nil
+}
+
+// Slow returns a value that is slow to encode (Tok.SleepNs of fake time).
+func (a *API) Slow(ctx context.Context, tok int) (SlowVal, error) {
+	t := a.e.Tok(tok)
+	t.mu.Lock()
+	t.Execs++
+	t.HCtx = append(t.HCtx, ctx)
+	t.HStart = append(t.HStart, a.e.S.Step())
+	sl := t.SleepNs
+	t.mu.Unlock()
+	defer a.leave(t)
+	return SlowVal{Tok: tok, Sleep: time.Duration(sl)}, nil
+}
+
 // RevClient is the proxy the server uses to call back into a client.
 type RevClient struct {
 	Who      func(ctx context.Context, tok int) (string, error)
@@ -529,6 +578,8 @@ type Proxy struct {
 	SubF           func(ctx context.Context, tok int) (<-chan float64, error)
 	NotifyRev      func(ctx context.Context, tok int) error `notify:"true"`
 	RevSub         func(ctx context.Context, tok int) (string, error)
+	CallNoRetry    func(ctx context.Context, tok int) (string, error) `rpc_method:"T.Call" retry:"false"`
+	Slow           func(ctx context.Context, tok int) (string, error)
 }
 
 type Client struct {
